@@ -243,6 +243,22 @@ pub fn harvest() -> Harvest {
             }
         }
     }
+    // data-driven rule tables: canonical spellings of the proper-noun rule groups
+    if let Ok(txt) = std::fs::read_to_string(format!("{REPO_ROOT}/harper-core/proper_noun_rules.json")) {
+        if let Ok(v) = serde_json::from_str::<serde_json::Value>(&txt) {
+            if let Some(o) = v.as_object() {
+                for (_k, rule) in o {
+                    if let Some(c) = rule["canonical"].as_array() {
+                        // the first few of every group, verbatim and lower-cased
+                        for s in c.iter().filter_map(|x| x.as_str()).take(6) {
+                            seeds.insert(s.to_string());
+                            seeds.insert(format!("We saw {} there.", s.to_lowercase()));
+                        }
+                    }
+                }
+            }
+        }
+    }
     for t in [
         "e.g", "etc", "vs", "et", "al", "1st", "2ND", "3rd", "isn't", "...", "i.e", "U.S.A", "1990s",
         "0x1F", "a@b.co", "http://a.co", "$5", "5%", "I", "x", "é", "😀", "世", "naïve", "O'Brien",
